@@ -209,6 +209,12 @@ impl HCtx {
             "history-upper" => ("other", Some("Application/Vnd.Taskchampion.History-Segment")),
             "other" => ("other", Some("application/octet-stream")),
             "prefix" => ("other", Some("application/vnd.taskchampion.history-segment-x")),
+            "snapshot-prefix" => ("other", Some("application/vnd.taskchampion.snapshot-x")),
+            "snapshot-suffix" => ("other", Some("application/vnd.taskchampion.snapshots")),
+            "snapshot-trunc" => ("other", Some("application/vnd.taskchampion.snapsho")),
+            "history-trunc" => ("other", Some("application/vnd.taskchampion.history")),
+            "snapshot-upper" => ("other", Some("application/vnd.taskchampion.SNAPSHOT")),
+            "history-in-param" => ("other", Some("text/plain; application/vnd.taskchampion.history-segment")),
             "empty" => ("other", Some("")),
             "absent" => ("absent", None),
             other => panic!("bad ctype {other}"),
